@@ -162,6 +162,38 @@ void perturb(const char* /*point*/) {
 }
 } // namespace sched
 
+// ------------------------------------------------------------------------------------------------ event trace
+
+namespace trace {
+std::mutex mutex;
+std::vector<json> events;
+std::atomic<bool> on{false};
+std::atomic<const void*> output_queue{nullptr};    // the Writer's output queue (told by the output format factories)
+
+void rec(json ev) {
+    if (!on.load(std::memory_order_relaxed)) {
+        return;
+    }
+    const std::lock_guard<std::mutex> lock{mutex};
+    events.push_back(std::move(ev));
+}
+
+// OSMIUM_VERIF_EVENT sink: queue events are delivered while the queue's mutex is held
+void sink(const void* object, const char* name, const void* /*ptr*/, std::int64_t value) {
+    if (!on.load(std::memory_order_relaxed)) {
+        return;
+    }
+    if (name[0] == 'W' && name[1] == '.') {
+        rec(json{{"e", name}});
+        return;
+    }
+    if (object != output_queue.load() || !std::strcmp(name, "Size")) {
+        return;                                   // the pool's work queue; polls of push() are not modelled
+    }
+    rec(json{{"e", name}, {"n", value}});
+}
+} // namespace trace
+
 // ------------------------------------------------------------------------------------------------ mocks
 
 namespace wf {
@@ -522,6 +554,7 @@ RunResult run_script(const json& c, const std::string& path, const Fault& fault,
                 }
             }
             set_where(op + " (call " + std::to_string(k + 1) + ")");
+            trace::rec(json{{"e", "C.Call"}, {"op", op}});
             Entry e;
             try {
                 if (op == "buf") {
@@ -560,10 +593,16 @@ RunResult run_script(const json& c, const std::string& path, const Fault& fault,
             if (e.r == "exc" && op != "close") {
                 res.early = true;
             }
+            if (e.r == "ret") {
+                trace::rec(json{{"e", "C.Ret"}, {"res", "ret"}, {"n", e.n}});
+            } else {
+                trace::rec(json{{"e", "C.Ret"}, {"res", e.r}});
+            }
             res.log.push_back(e);
         }
         vh::step_marker(static_cast<int>(script.size()));
         set_where("~Writer");
+        trace::rec(json{{"e", "C.Call"}, {"op", "destroy"}});
     }
     Entry d;
     d.r = "destroyed";
@@ -580,6 +619,7 @@ RunResult run_script(const json& c, const std::string& path, const Fault& fault,
         std::this_thread::sleep_for(std::chrono::milliseconds(5));
     }
     res.fds_after = count_fds();
+    trace::rec(json{{"e", "C.Ret"}, {"res", "destroyed"}, {"thrleak", std::max(0, res.threads_after - res.threads_before)}});
     set_where("after ~Writer");
     return res;
 }
@@ -659,6 +699,38 @@ int64_t file_size_of(const std::string& path) {
     return ::stat(path.c_str(), &st) == 0 ? static_cast<int64_t>(st.st_size) : -1;
 }
 
+// The configuration line of a recorded execution: the exported configuration, but a kernel fault is represented by
+// the Compressor call that was observed to fail (see specs/WriterPipelineTrace.tla).
+json trace_config(const json& c, const Fault& fault, const std::vector<json>& events) {
+    json f{{"k", fault.k}, {"at", fault.at}};
+    if (fault.k == "write" || fault.k == "fsync" || fault.k == "close") {
+        f = json{{"k", "none"}, {"at", 0}};
+        int writes = 0;
+        std::string last;
+        for (const auto& ev : events) {
+            const std::string e = ev["e"];
+            if (e == "W.Catch") {
+                if (last == "W.Data") {
+                    f = json{{"k", "cwrite"}, {"at", writes + 1}};
+                } else if (last == "Drain" || last == "PopEmpty") {
+                    f = json{{"k", "cclose"}, {"at", 0}};
+                }
+                break;
+            }
+            if (e == "W.Write") {
+                ++writes;
+            }
+            if (e == "Deq" || e == "PopEmpty" || e == "Drain" || e == "W.Data" || e == "W.Write" || e == "W.Close") {
+                last = e;
+            }
+        }
+    }
+    const std::string fmt = c["fmt"];
+    return json{{"e", "Config"},
+                {"cfg", {{"script", c["script"]}, {"hdr", fmt != "opl"}, {"trl", fmt == "xml" || fmt == "mock"}, {"defer", fmt == "pbf"},
+                         {"fault", f}, {"pool", c.value("pool", true)}, {"maxQ", std::max(2, c.value("qsize", 20))}, {"cap", 2}}}};
+}
+
 void run_case(const json& c, json& result) {
     static int counter = 0;
     const std::string path = g_scratch + "/w" + std::to_string(::getpid()) + "_" + std::to_string(++counter) + ".dat";
@@ -736,9 +808,25 @@ void run_case(const json& c, json& result) {
     for (const uint64_t seed : seeds) {
         ::unlink(path.c_str());
         g_deadline_ms = now_ms() + budget_ms;
+        const bool tracing = c.contains("trace");
+        if (tracing) {
+            const std::lock_guard<std::mutex> lock{trace::mutex};
+            trace::events.clear();
+        }
+        trace::on = tracing;
         const RunResult r = run_script(c, target, fault, limit, seed, true);
+        trace::on = false;
         g_deadline_ms = 0;
         ++execs;
+        if (tracing) {
+            std::string text = trace_config(c, fault, trace::events).dump() + "\n";
+            for (const auto& ev : trace::events) {
+                text += ev.dump();
+                text += '\n';
+            }
+            std::ofstream out{c["trace"].get<std::string>(), std::ios::app};
+            out << text;
+        }
         hits += r.hits;
 
         json got = json::array();
@@ -817,9 +905,26 @@ int main(int argc, char** argv) {
     ::signal(SIGPIPE, SIG_IGN);
     g_scratch = argc > 1 ? argv[1] : "/tmp";
     osmium::verif::sched_sink().store(sched::perturb);
+    osmium::verif::event_sink().store(trace::sink);
+    // the real output formats, wrapped only to learn the address of the Writer's output queue
+    using osmium::io::file_format;
+    auto& factory = osmium::io::detail::OutputFormatFactory::instance();
+    factory.register_output_format(file_format::xml, [](osmium::thread::Pool& pool, const osmium::io::File& file, osmium::io::detail::future_string_queue_type& queue) -> osmium::io::detail::OutputFormat* {
+        trace::output_queue = &queue;
+        return new osmium::io::detail::XMLOutputFormat{pool, file, queue};
+    });
+    factory.register_output_format(file_format::opl, [](osmium::thread::Pool& pool, const osmium::io::File& file, osmium::io::detail::future_string_queue_type& queue) -> osmium::io::detail::OutputFormat* {
+        trace::output_queue = &queue;
+        return new osmium::io::detail::OPLOutputFormat{pool, file, queue};
+    });
+    factory.register_output_format(file_format::pbf, [](osmium::thread::Pool& pool, const osmium::io::File& file, osmium::io::detail::future_string_queue_type& queue) -> osmium::io::detail::OutputFormat* {
+        trace::output_queue = &queue;
+        return new osmium::io::detail::PBFOutputFormat{pool, file, queue};
+    });
     osmium::io::detail::OutputFormatFactory::instance().register_output_format(
         osmium::io::file_format::debug,
         [](osmium::thread::Pool& pool, const osmium::io::File& /*file*/, osmium::io::detail::future_string_queue_type& queue) {
+            trace::output_queue = &queue;
             return new wf::MockOutputFormat{pool, queue};
         });
     std::thread{watchdog}.detach();
